@@ -119,6 +119,120 @@ theorem shrinkTo_cells (T N : Nat) : ∀ (s : S) (blks : List Nat) (y x : Nat),
       · exact Or.inr h
     · simp only [hT, if_false]; exact Or.inl trivial
 
+/-! ### what is freed has been zeroed -/
+
+theorem free_freed_zero (s : S) (b c : Nat) (h : c ∈ (s.free b).freed) :
+    c ∈ s.freed ∨ ∀ x, (s.free b).st c x = 0 := by
+  rw [free_freed] at h
+  by_cases hb : b = 0
+  · rw [if_pos hb] at h; exact Or.inl h
+  · rw [if_neg hb, List.mem_cons] at h
+    rcases h with h | h
+    · right; intro x; rw [free_st, if_neg hb, h]; simp [Store.zero]
+    · exact Or.inl h
+
+theorem indshrink_freed_zero (l : Nat) : ∀ (s : S) (root bn c : Nat),
+    c ∈ (indshrink s root l bn).1.freed → c ∈ s.freed ∨ ∀ x, (indshrink s root l bn).1.st c x = 0 := by
+  induction l with
+  | zero =>
+    intro s root bn c h
+    rw [indshrink_zero] at h
+    split at h <;> exact Or.inl h
+  | succ l ih =>
+    intro s root bn c
+    unfold indshrink
+    by_cases hr : root = 0
+    · simp only [hr, if_true]; exact Or.inl
+    · simp only [hr, if_false]
+      by_cases hn : s.st root (bn / pow l) = 0
+      · simp only [hn, ne_eq, not_true_eq_false, if_false]; exact Or.inl
+      · simp only [ne_eq, hn, not_false_eq_true, if_true]
+        generalize hres : indshrink s (s.st root (bn / pow l)) l (bn % pow l) = res
+        have h1 := ih s (s.st root (bn / pow l)) (bn % pow l) c
+        rw [hres] at h1
+        obtain ⟨s1, fr⟩ := res
+        simp only at h1 ⊢
+        by_cases hf : fr = 0
+        · simp only [hf, not_true_eq_false, if_false]; exact h1
+        · simp only [hf, not_false_eq_true, if_true]
+          intro hc
+          rcases free_freed_zero ({ s1 with st := s1.st.put root (bn / pow l) 0 } : S) fr c hc with h2 | h2
+          · rcases h1 h2 with h3 | h3
+            · exact Or.inl h3
+            · right
+              intro x
+              rcases free_cells ({ s1 with st := s1.st.put root (bn / pow l) 0 } : S) fr c x with h4 | h4
+              · rw [h4]
+                simp only [Store.put]
+                split
+                · rfl
+                · exact h3 x
+              · exact h4
+          · exact Or.inr h2
+
+theorem shrinkStep_freed_zero (s : S) (blks : List Nat) (idx c : Nat)
+    (h : c ∈ (shrinkStep s blks idx).1.freed) : c ∈ s.freed ∨ ∀ x, (shrinkStep s blks idx).1.st c x = 0 := by
+  unfold shrinkStep at h ⊢
+  by_cases h1 : idx < NDIRECT
+  · simp only [h1, if_true] at h ⊢; exact free_freed_zero _ _ _ h
+  · simp only [h1, if_false] at h ⊢
+    by_cases h2 : idx - NDIRECT < NBLKBLK
+    · simp only [h2, if_true] at h ⊢
+      generalize hres : indshrink s (blks.getD INDIRECT 0) 1 (idx - NDIRECT) = res at h
+      have hi := indshrink_freed_zero 1 s (blks.getD INDIRECT 0) (idx - NDIRECT) c
+      rw [hres] at hi
+      obtain ⟨s1, fr⟩ := res
+      simp only at hi h ⊢
+      by_cases hf : fr = 0
+      · simp only [hf, ne_eq, not_true_eq_false, if_false] at h ⊢; exact hi h
+      · simp only [ne_eq, hf, not_false_eq_true, if_true] at h ⊢
+        rcases free_freed_zero s1 (blks.getD INDIRECT 0) c h with h3 | h3
+        · rcases hi h3 with h4 | h4
+          · exact Or.inl h4
+          · right; intro x
+            rcases free_cells s1 (blks.getD INDIRECT 0) c x with h5 | h5
+            · rw [h5]; exact h4 x
+            · exact h5
+        · exact Or.inr h3
+    · simp only [h2, if_false] at h ⊢
+      generalize hres : indshrink s (blks.getD DINDIRECT 0) 2 (idx - NDIRECT - NBLKBLK) = res at h
+      have hi := indshrink_freed_zero 2 s (blks.getD DINDIRECT 0) (idx - NDIRECT - NBLKBLK) c
+      rw [hres] at hi
+      obtain ⟨s1, fr⟩ := res
+      simp only at hi h ⊢
+      by_cases hf : fr = 0
+      · simp only [hf, ne_eq, not_true_eq_false, if_false] at h ⊢; exact hi h
+      · simp only [ne_eq, hf, not_false_eq_true, if_true] at h ⊢
+        rcases free_freed_zero s1 (blks.getD DINDIRECT 0) c h with h3 | h3
+        · rcases hi h3 with h4 | h4
+          · exact Or.inl h4
+          · right; intro x
+            rcases free_cells s1 (blks.getD DINDIRECT 0) c x with h5 | h5
+            · rw [h5]; exact h4 x
+            · exact h5
+        · exact Or.inr h3
+
+/-- EVERY BLOCK THE RUN OF `Shrink` FREES IS ALL ZEROS AFTERWARDS -/
+theorem shrinkTo_freed_zero (T N : Nat) : ∀ (s : S) (blks : List Nat) (c : Nat),
+    c ∈ (shrinkTo s blks T N).1.freed → c ∈ s.freed ∨ ∀ x, (shrinkTo s blks T N).1.st c x = 0 := by
+  induction N with
+  | zero => intro s blks c h; exact Or.inl h
+  | succ n ih =>
+    intro s blks c
+    unfold shrinkTo
+    by_cases hT : T < n + 1
+    · simp only [hT, if_true]
+      intro h
+      rcases ih (shrinkStep s blks n).1 (shrinkStep s blks n).2 c h with h1 | h1
+      · rcases shrinkStep_freed_zero s blks n c h1 with h2 | h2
+        · exact Or.inl h2
+        · right; intro x
+          rcases shrinkTo_cells T n (shrinkStep s blks n).1 (shrinkStep s blks n).2 c x with h3 | h3
+          · rw [h3]; exact h2 x
+          · exact h3
+      · exact Or.inr h1
+    · simp only [hT, if_false]; exact Or.inl
+
 /-- THE RUN OF `Shrink` KEEPS THE TREE WELL-FORMED (with what the allocator still holds) -/
 theorem shrinkTo_wf (s : S) (blks : List Nat) (T N : Nat) (h : WFB s blks) (hN : N ≤ MAXBLKS)
     (hemp : EmptyFrom s.st blks N) :
